@@ -753,13 +753,13 @@ def check(run, props):
         if j % 2:
             h2 = [op for op in h2 if op['op'] != 'close']
         bigdecl.append((3 * 10 ** 6 + j, h2, False))
-    cap = 4000 if run.quick else 2500          # TLC checks every history; the implementation replays a seeded sample of them
+    cap = 4000 if run.quick else 1500          # TLC checks every history; the implementation replays a seeded sample of them
     run.extra['histories_total'] = len(items)
-    # byte-level truncation sweeps (one per layout class) are the expensive part: at most 500 classes are swept
+    # byte-level truncation sweeps (one per layout class) are the expensive part: at most 150 classes are swept
     swept = [i_ for i_, it in enumerate(items) if it[2]]
-    if len(swept) > 500:
+    if len(swept) > 150:
         rng.shuffle(swept)
-        for i_ in swept[500:]:
+        for i_ in swept[150:]:
             items[i_] = (items[i_][0], items[i_][1], False)
     if len(items) > cap:
         keep = [it for it in items if it[2]]
@@ -767,7 +767,7 @@ def check(run, props):
         rng.shuffle(rest)
         items = keep + rest[:max(0, cap - len(keep))]
     items += bigdecl
-    nrand = 150 if run.quick else 400
+    nrand = 150 if run.quick else 300
     rand_items = [(10 ** 6 + j, run.seed * 1000003 + j, 40 if run.quick else 200, 'C14' in props) for j in range(nrand)]
     nproc = 16
     parts = []
